@@ -29,23 +29,24 @@ Section Unwedged.
 Variable S : Type.
 Variable react : S -> mid -> mstate -> json -> option mstate * list json.
 Variable decode_src : json -> option S.
+Variable resolves : S -> bool.
 Variable src_eqb : S -> S -> bool.
 Variable ord : forall A : Type, list (mid * A) -> list (mid * A).
 
 Local Notation crew := (crew S).
 Local Notation entry := (entry S).
-Local Notation present := (present S react decode_src).
-Local Notation run_list := (run_list S react decode_src).
-Local Notation run_machines := (run_machines S react decode_src ord).
-Local Notation process := (process S react decode_src ord).
-Local Notation process_msg := (process_msg S react decode_src src_eqb ord).
+Local Notation present := (present S react decode_src resolves).
+Local Notation run_list := (run_list S react decode_src resolves).
+Local Notation run_machines := (run_machines S react decode_src resolves ord).
+Local Notation process := (process S react decode_src resolves ord).
+Local Notation process_msg := (process_msg S react decode_src resolves src_eqb ord).
 Local Notation get_changed := (get_changed S src_eqb ord).
-Local Notation set_machine := (set_machine S).
+Local Notation set_machine := (set_machine S resolves).
 Local Notation delete_machine := (delete_machine S).
-Local Notation hstep := (hstep S react decode_src src_eqb ord).
-Local Notation run_history := (run_history S react decode_src src_eqb ord).
-Local Notation boot_from := (boot_from S ord).
-Local Notation boot := (boot S ord).
+Local Notation hstep := (hstep S react decode_src resolves src_eqb ord).
+Local Notation run_history := (run_history S react decode_src resolves src_eqb ord).
+Local Notation boot_from := (boot_from S resolves ord).
+Local Notation boot := (boot S resolves ord).
 
 (** ** every function leaves the captain as it was *)
 Lemma delete_machine_wedged c m : wedged S (delete_machine c m) = wedged S c.
@@ -54,7 +55,7 @@ Proof. reflexivity. Qed.
 Lemma record_state_wedged c m mc st : wedged S (record_state S c m mc st) = wedged S c.
 Proof. reflexivity. Qed.
 
-Lemma do_op_wedged c op : wedged S (do_op S c op) = wedged S c.
+Lemma do_op_wedged c op : wedged S (do_op S resolves c op) = wedged S c.
 Proof.
   unfold do_op.
   assert (E1 : forall us c0,
@@ -150,16 +151,16 @@ Proof.
 Qed.
 
 Lemma run_outputs_wedged fuel h : forall c c1 outs,
-  run_outputs S react decode_src src_eqb ord fuel c h = Done (c1, outs) -> wedged S c1 = wedged S c.
+  run_outputs S react decode_src resolves src_eqb ord fuel c h = Done (c1, outs) -> wedged S c1 = wedged S c.
 Proof.
   induction h as [|x r IH]; intros c c1 outs H.
   - simpl in H. injection H as <- <-. reflexivity.
   - change (obind (hstep fuel (c, []) x) (fun '(c2, _, res) =>
-            obind (run_outputs S react decode_src src_eqb ord fuel c2 r) (fun '(c3, outs0) =>
+            obind (run_outputs S react decode_src resolves src_eqb ord fuel c2 r) (fun '(c3, outs0) =>
             Done (c3, match res with Some rs => res_emitted S rs :: outs0 | None => outs0 end)))
             = Done (c1, outs)) in H.
     destruct (hstep fuel (c, []) x) as [[[c2 s2] r2]| |] eqn:HS; simpl in H; try discriminate.
-    destruct (run_outputs S react decode_src src_eqb ord fuel c2 r) as [[c3 o3]| |] eqn:HO;
+    destruct (run_outputs S react decode_src resolves src_eqb ord fuel c2 r) as [[c3 o3]| |] eqn:HO;
       simpl in H; try discriminate.
     injection H as <- <-. rewrite (IH _ _ _ HO). eapply hstep_wedged; eauto.
 Qed.
@@ -193,7 +194,7 @@ Theorem wedged_never_set :
   /\ (forall c m src st, wedged S c = false -> wedged S (set_machine c m src st) = false)
   /\ (forall c m, wedged S c = false -> wedged S (delete_machine c m) = false)
   /\ (forall c m mc st, wedged S c = false -> wedged S (record_state S c m mc st) = false)
-  /\ (forall c op, wedged S c = false -> wedged S (do_op S c op) = false)
+  /\ (forall c op, wedged S c = false -> wedged S (do_op S resolves c op) = false)
   /\ (forall c store, wedged S c = false -> wedged S (boot_from c store) = false)
   /\ (forall c msg m c1 got b,
         wedged S c = false -> present c msg m = Done (c1, got, b) -> wedged S c1 = false)
@@ -213,7 +214,7 @@ Theorem wedged_never_set :
         wedged S c = false -> run_history fuel (c, store) h = Done (c1, store1) -> wedged S c1 = false)
   /\ (forall fuel h c c1 outs,
         wedged S c = false ->
-        run_outputs S react decode_src src_eqb ord fuel c h = Done (c1, outs) -> wedged S c1 = false)
+        run_outputs S react decode_src resolves src_eqb ord fuel c h = Done (c1, outs) -> wedged S c1 = false)
   /\ (forall fuel h c store,
         run_history fuel (init_crew S, []) h = Done (c, store) -> wedged S c = false).
 Proof.
@@ -241,10 +242,10 @@ Hypothesis ord_perm : forall A l, Permutation (ord A l) l.
 Hypothesis src_eqb_sound : forall a b, src_eqb a b = true -> a = b.
 Hypothesis react_named : forall s m st msg st', fst (react s m st msg) = Some st' -> ms_node st' <> "".
 
-Local Notation inv := (inv S).
+Local Notation inv := (inv S resolves).
 Local Notation good := (good S).
 Local Notation core_eq := (core_eq S).
-Local Notation run_outputs := (run_outputs S react decode_src src_eqb ord).
+Local Notation run_outputs := (run_outputs S react decode_src resolves src_eqb ord).
 
 Theorem restart_unobservable_reachable : forall fuel h c store,
   run_history fuel (init_crew S, []) h = Done (c, store) -> ends_with_msg S h ->
@@ -253,8 +254,30 @@ Theorem restart_unobservable_reachable : forall fuel h c store,
   /\ forall fuel' h2, orel (outputs_sim S) (run_outputs fuel' c h2) (run_outputs fuel' (boot store) h2).
 Proof.
   intros fuel h c store H E.
-  exact (restart_unobservable S react decode_src src_eqb ord ord_perm src_eqb_sound react_named
+  exact (restart_unobservable S react decode_src resolves src_eqb ord ord_perm src_eqb_sound react_named
            fuel h c store H E (reachable_unwedged fuel h c store H)).
+Qed.
+
+(** a crew booted from a store that tracks a crew with nothing cached has
+    that crew's machines *)
+Lemma boot_machines_tracked : forall c store,
+  good c -> inv c store -> cache S c = [] -> machines S (boot store) = machines S c.
+Proof.
+  intros c store [Gs Gn] I Ec.
+  destruct (boot_spec S resolves ord ord_perm store) as (M & _ & _ & Wb & [Bs _]).
+  assert (T : forall m, store_view S resolves store m = live_view S c m).
+  { intros m. destruct (I m) as (V & _). unfold inv_at in V. rewrite Ec in V. exact V. }
+  assert (V : forall m, aget m (machines S (boot store)) = aget m (machines S c)).
+  { intros m. apply view_of_mach_inj.
+    pose proof (T m) as Tm. unfold live_view in Tm. rewrite <- Tm. rewrite M. unfold store_view.
+    destruct (aget m store) as [[es esrc]|] eqn:Es; simpl; auto.
+    unfold boot_mach, view_of_mach, view_of_entry. simpl. destruct es as [s|]; auto.
+    rewrite defaulted_id; auto.
+    unfold store_view in Tm. rewrite Es in Tm. simpl in Tm.
+    destruct (aget m (machines S c)) as [mc|] eqn:Em; [|discriminate].
+    simpl in Tm. unfold view_of_entry, view_of_mach in Tm. simpl in Tm.
+    injection Tm as _ T2. rewrite T2. eapply Gn. exact Em. }
+  apply ssorted_ext; auto.
 Qed.
 
 (** The same for ANY crew, reachable or not, that sits at a message boundary
@@ -269,22 +292,10 @@ Theorem restart_unobservable_any_crew : forall c store,
   /\ inv (boot store) store
   /\ forall fuel' h2, orel (outputs_sim S) (run_outputs fuel' c h2) (run_outputs fuel' (boot store) h2).
 Proof.
-  intros c store [Gs Gn] I Ec W.
-  destruct (boot_spec S ord ord_perm store) as (M & _ & _ & Wb & [Bs _]).
-  assert (T : forall m, store_view S store m = live_view S c m).
-  { intros m. destruct (I m) as (V & _). unfold inv_at in V. rewrite Ec in V. exact V. }
-  assert (V : forall m, aget m (machines S (boot store)) = aget m (machines S c)).
-  { intros m. apply view_of_mach_inj.
-    pose proof (T m) as Tm. unfold live_view in Tm. rewrite <- Tm. rewrite M. unfold store_view.
-    destruct (aget m store) as [[es esrc]|] eqn:Es; simpl; auto.
-    unfold boot_mach, view_of_mach, view_of_entry. simpl. destruct es as [s|]; auto.
-    rewrite defaulted_id; auto.
-    unfold store_view in Tm. rewrite Es in Tm. simpl in Tm.
-    destruct (aget m (machines S c)) as [mc|] eqn:Em; [|discriminate].
-    simpl in Tm. unfold view_of_entry, view_of_mach in Tm. simpl in Tm.
-    injection Tm as _ T2. rewrite T2. eapply Gn. exact Em. }
+  intros c store G I Ec W.
+  destruct (boot_spec S resolves ord ord_perm store) as (_ & _ & _ & Wb & _).
   assert (CE : core_eq (boot store) c).
-  { split; [apply ssorted_ext; auto|congruence]. }
+  { split; [apply boot_machines_tracked; assumption|congruence]. }
   split; [exact CE|]. split; [apply boot_inv; assumption|].
   intros fuel' h2. apply run_outputs_core. destruct CE. split; auto.
 Qed.
@@ -300,10 +311,10 @@ End Unwedged.
     crew ignores *)
 Definition wedged_empty_crew : rcrew := mk_crew [] true [] [] false.
 Lemma any_crew_needs_unwedged :
-  good rcfg wedged_empty_crew /\ inv rcfg wedged_empty_crew [] /\ cache rcfg wedged_empty_crew = []
+  good rcfg wedged_empty_crew /\ inv rcfg rresolves wedged_empty_crew [] /\ cache rcfg wedged_empty_crew = []
   /\ ~ core_eq rcfg (r_boot []) wedged_empty_crew
-  /\ exists h2, ~ orel (outputs_sim rcfg) (run_outputs rcfg rreact rdecode rcfg_eqb ord_id 10 wedged_empty_crew h2)
-                       (run_outputs rcfg rreact rdecode rcfg_eqb ord_id 10 (r_boot []) h2).
+  /\ exists h2, ~ orel (outputs_sim rcfg) (run_outputs rcfg rreact rdecode rresolves rcfg_eqb ord_id 10 wedged_empty_crew h2)
+                       (run_outputs rcfg rreact rdecode rresolves rcfg_eqb ord_id 10 (r_boot []) h2).
 Proof.
   split; [|split; [|split; [reflexivity|split]]].
   - split; simpl; auto. intros m mc H. discriminate.
@@ -320,12 +331,12 @@ Definition restart_two_schedules_full_reachable : Prop :=
   forall ord1 ord2 : forall A : Type, list (mid * A) -> list (mid * A),
   (forall A l, Permutation (ord1 A l) l) -> (forall A l, Permutation (ord2 A l) l) ->
   forall fuel h c store,
-    run_history rcfg rreact rdecode rcfg_eqb ord1 fuel (init_crew rcfg, []) h = Done (c, store) ->
+    run_history rcfg rreact rdecode rresolves rcfg_eqb ord1 fuel (init_crew rcfg, []) h = Done (c, store) ->
     ends_with_msg rcfg h ->
     forall h2,
       orel (fun x y => machines rcfg (fst x) = machines rcfg (fst y))
-           (run_outputs rcfg rreact rdecode rcfg_eqb ord1 fuel c h2)
-           (run_outputs rcfg rreact rdecode rcfg_eqb ord2 fuel (boot rcfg ord2 store) h2).
+           (run_outputs rcfg rreact rdecode rresolves rcfg_eqb ord1 fuel c h2)
+           (run_outputs rcfg rreact rdecode rresolves rcfg_eqb ord2 fuel (boot rcfg rresolves ord2 store) h2).
 
 Lemma restart_two_schedules_full_iff :
   restart_two_schedules_full_reachable <-> restart_two_schedules_full.
@@ -334,7 +345,7 @@ Proof.
   - intros F ord1 ord2 P1 P2 fuel h c store H E _ h2. exact (F ord1 ord2 P1 P2 fuel h c store H E h2).
   - intros F ord1 ord2 P1 P2 fuel h c store H E h2.
     exact (F ord1 ord2 P1 P2 fuel h c store H E
-             (reachable_unwedged rcfg rreact rdecode rcfg_eqb ord1 fuel h c store H) h2).
+             (reachable_unwedged rcfg rreact rdecode rresolves rcfg_eqb ord1 fuel h c store H) h2).
 Qed.
 
 Lemma restart_two_schedules_reachable_refuted : ~ restart_two_schedules_full_reachable.
